@@ -947,8 +947,10 @@ func (c *control) getEFGarg(ff *floatFormatter) {
 		ff.exp = int(math.Floor(math.Log10(num)))
 		ff.digits = strconv.AppendFloat(nil, num, 'e', -1, 64)
 		ff.digits = ff.digits[:bytes.IndexByte(ff.digits, 'e')]
-		copy(ff.digits[1:], ff.digits[2:])
-		ff.digits = ff.digits[:len(ff.digits)-1]
+		if 1 < len(ff.digits) { // more than one digit, remove the decimal point
+			copy(ff.digits[1:], ff.digits[2:])
+			ff.digits = ff.digits[:len(ff.digits)-1]
+		}
 		ff.exp -= len(ff.digits) - 1
 	default:
 		p := *slip.DefaultPrinter()
